@@ -142,8 +142,19 @@ def located_spec(variants):
         elif f.get("source") == "Box<Error>":
             arms.append(f"        Error::{name}{{source, ..}} => located(*source),")
     arms.append("        _ => false,")
+    # C18: the position a diagnostic SHOWS FIRST: the outermost AtLoc met when peeling the context wrappers
+    parms = []
+    for name, fields in variants:
+        f = dict(fields)
+        if name == "AtLoc":
+            parms.append("        Error::AtLoc{line, col, ..} => Some((line, col)),")
+        elif f.get("source") == "Box<Error>":
+            parms.append(f"        Error::{name}{{source, ..}} => first_pos(*source),")
+    parms.append("        _ => None,")
     return ("pub open spec fn located(e: Error) -> bool\n    decreases e\n{\n    match e {\n"
-            + "\n".join(arms) + "\n    }\n}\n")
+            + "\n".join(arms) + "\n    }\n}\n"
+            + "pub open spec fn first_pos(e: Error) -> Option<(usize, usize)>\n    decreases e\n{\n    match e {\n"
+            + "\n".join(parms) + "\n    }\n}\n")
 
 
 def copy_item(b, read, rel, kind, name, strip=True):
